@@ -258,6 +258,55 @@ Theorem failing_peer_isolated c ops d' :
   fst (run c q_init ops) d' = fst (run c q_init (filter (fun o => target o =? d') ops)) d'.
 Proof. apply run_filter. reflexivity. Qed.
 
+(* ---- per-caller order ---------------------------------------------------------------------------------------- *)
+(* QEnq is atomic: when it returns the message is either in the queue (accepted) or dropped (timeout) -- Send never
+   returns while its message is neither.  Hence the accepted messages of a destination are, in order, exactly the
+   messages of the enqueue operations that were accepted, in the order of those operations; for one caller (whose
+   Send calls are sequential) that is the order of its calls.  With fifo_general: wire order = call order. *)
+Fixpoint enq_accepted (d : N) (ops : list qop) (rs : list (outcome qres)) : list N :=
+  match ops, rs with
+  | QEnq d' m :: t, Ok RAccepted :: rt => if d' =? d then m :: enq_accepted d t rt else enq_accepted d t rt
+  | _ :: t, _ :: rt => enq_accepted d t rt
+  | _, _ => []
+  end.
+
+Lemma step_accepted c st o d :
+  d_accepted (fst (step c st o) d) =
+  d_accepted (st d) ++ enq_accepted d [o] [snd (step c st o)].
+Proof.
+  destruct o as [d' m|d' ok|d' ok]; cbn [step].
+  - destruct (negb _); [cbn; symmetry; apply app_nil_r|].
+    destruct (_ <? _).
+    + cbn [fst snd enq_accepted]. unfold upd. rewrite (N.eqb_sym d' d).
+      destruct (d =? d') eqn:E; [apply N.eqb_eq in E; subst; reflexivity|symmetry; apply app_nil_r].
+    + destruct (fix_timeout_panic c); cbn; symmetry; apply app_nil_r.
+  - destruct (d_up (st d')); cbn [fst snd enq_accepted]; [symmetry; apply app_nil_r|].
+    unfold upd. destruct (d =? d') eqn:E; [apply N.eqb_eq in E; subst; cbn; symmetry; apply app_nil_r|symmetry; apply app_nil_r].
+  - destruct (d_up (st d')); [|cbn; symmetry; apply app_nil_r].
+    destruct (d_queue (st d')) eqn:Eq; cbn [fst snd enq_accepted]; [symmetry; apply app_nil_r|].
+    unfold upd. destruct (d =? d') eqn:E; [apply N.eqb_eq in E; subst; cbn; symmetry; apply app_nil_r|symmetry; apply app_nil_r].
+Qed.
+
+Lemma run_accepted c ops : forall st d,
+  d_accepted (fst (run c st ops) d) = d_accepted (st d) ++ enq_accepted d ops (snd (run c st ops)).
+Proof.
+  induction ops as [|o t IH]; intros st d; [cbn; symmetry; apply app_nil_r|].
+  cbn [run]. pose proof (step_accepted c st o d) as S.
+  destruct (step c st o) as [st1 r]. specialize (IH st1 d).
+  destruct (run c st1 t) as [st2 rs]. cbn [fst snd] in *. rewrite IH, S, <- app_assoc. f_equal.
+  destruct o as [d' m| |]; cbn [enq_accepted]; try reflexivity.
+  destruct r as [[| |]| |]; try reflexivity. destruct (d' =? d); reflexivity.
+Qed.
+
+(* C17, per-caller order: what is taken by the writer followed by what waits is the list of accepted enqueue
+   operations in the order in which they were performed *)
+Theorem call_order c ops d :
+  let r := run c q_init ops in
+  taken (fst r d) ++ d_queue (fst r d) = enq_accepted d ops (snd r).
+Proof.
+  cbv zeta. rewrite (fifo_general c ops d). rewrite run_accepted. reflexivity.
+Qed.
+
 (* ---- the pinned tree panicked on a full queue; non-vacuity ----------------------------------------------- *)
 
 Definition cfg_ex (fx : bool) := mkQ fx [1; 2; 3] (fun _ => 2).
